@@ -27,12 +27,16 @@ type Exec struct {
 }
 
 type SScenario struct {
-	Name    string
-	Bound   int
-	MaxExec int64
-	Horizon int
-	Params  interface{} // stored in replay artefacts
-	Body    func(x *Exec)
+	Name      string
+	KeyPrefix string // witness-key prefix of generic verdicts (deadlock, panic); default Name
+	Bound     int
+	MaxExec   int64
+	Horizon   int
+	// ShardSubtrees deals the level-2 subtrees of this one scenario to the worker
+	// processes (for big scenarios); otherwise whole scenarios are dealt (MyShard).
+	ShardSubtrees bool
+	Params        interface{} // stored in replay artefacts
+	Body          func(x *Exec)
 }
 
 type SReplay struct {
@@ -71,8 +75,14 @@ func RunS(r *vres.Report, test string, sc SScenario) {
 	var sample interface{}
 	seenKey := map[string]bool{}
 	bestCost := map[string]int{}
+	kp := sc.KeyPrefix
+	if kp == "" {
+		kp = sc.Name
+	}
 	ex := &vrt.Explorer{Bound: sc.Bound, MaxExec: sc.MaxExec}
-	ex.ShardFromEnv()
+	if sc.ShardSubtrees {
+		ex.ShardFromEnv()
+	}
 	ex.Exec = func(prefix []int) []vrt.Choice {
 		s, x := runOnce(&sc, prefix, false)
 		transitions += int64(s.Steps)
@@ -96,11 +106,11 @@ func RunS(r *vres.Report, test string, sc SScenario) {
 		if !handled && key == "" {
 			switch v.Kind {
 			case vrt.Deadlock:
-				key, what = sc.Name+"/deadlock", "deadlock: "+v.Detail
+				key, what = kp+"/deadlock", "deadlock: "+v.Detail
 				outcome = "deadlock"
 			case vrt.Panic:
 				first := strings.SplitN(v.Detail, "\n", 2)[0]
-				key, what = sc.Name+"/panic:"+first, "panic in thread "+v.Thread+": "+v.Detail
+				key, what = kp+"/panic:"+first, "panic in thread "+v.Thread+": "+v.Detail
 				outcome = "panic"
 			}
 		}
